@@ -145,6 +145,30 @@ def sh_split(rng, big):
     return {"cnt": rng.range(1, 5), "len": rng.choice([64, 128, 192, 16, 8, 200, 320144, 1000]) if not big else 64 * rng.range(1, 999)}
 
 
+def sh_cmux(rng, big):
+    r = rng.range(1, 2)
+    d = key_part(rng, big, r, r)
+    d.update({"rank": r, "size": rng.range(1, 7), "b2k": d["kb2k"]})       # cmux asserts res.base2k == ggsw.base2k
+    return d
+
+
+BDD_STATE = {}          # circuit name -> max_state_size, filled from the compiled tables (pvh circuits)
+
+
+def sh_bdd(rng, big):
+    d = key_part(rng, big, 1, 1)
+    d["dsize"] = 1
+    d["dnum"] = rng.range(1, min(d["ksize"], 3))
+    circ = rng.choice(sorted(BDD_STATE)) if BDD_STATE else "add"
+    d.update({"rank": 1, "size": rng.range(1, 4), "b2k": d["kb2k"], "threads": rng.choice([1, 2, 3, 4]), "circ": circ,
+              "state": BDD_STATE.get(circ, 3)})
+    return d
+
+
+def sh_none(rng, big):
+    return {}
+
+
 # name -> (shape generator, back ends, runnable in the harness, minimum n)
 OPS = {
     "split_mut": (sh_split, ALL, True, 2),
@@ -195,6 +219,10 @@ OPS = {
     "glwe_trace": (sh_trace, ALL, True, 2),
     "glwe_trace_assign": (sh_trace_assign, ALL, True, 2),
     "gglwe_encrypt_sk": (sh_gglwe, ALL, True, 2),
+    "cmux": (sh_cmux, ALL, True, 2),
+    "execute_bdd": (sh_bdd, ALL, True, 32),      # FheUint<u32> packs 32 bits: n must be a multiple of 32
+    "ckks_shift_norm": (sh_none, ["fft64ref", "ntt120ref"], False, 1),      # CKKSImpl is only compiled for the reference back ends here
+    "ckks_shift": (sh_none, ["fft64ref", "ntt120ref"], False, 1),
     "ggsw_encrypt_sk": (sh_ggsw, ALL, True, 2),
 }
 
@@ -208,7 +236,7 @@ def sh_glwe_norm(rng, big):
 OPS["glwe_normalize"] = (sh_glwe_norm, ALL, True, 2)
 
 
-USES_VMP = {o for o in OPS if o.startswith("vmp_") or any(w in o for w in ("keyswitch", "external_product", "automorphism", "trace"))}
+USES_VMP = {o for o in OPS if o.startswith("vmp_") or any(w in o for w in ("keyswitch", "external_product", "automorphism", "trace", "cmux", "bdd"))}
 
 
 AUTO_FUSED = ["glwe_automorphism_add", "glwe_automorphism_sub", "glwe_automorphism_sub_negate"]
@@ -223,6 +251,7 @@ for _op in AUTO_FUSED:
     CORPUS.append((_op + "_assign", ALL, 16, dict(krin=1, krout=1, ksize=7, kb2k=17, dnum=2, dsize=3, rank=1, size=4, b2k=17)))
 CORPUS.append(("glwe_trace_assign", ALL, 16, dict(krin=1, krout=1, ksize=7, kb2k=17, dnum=2, dsize=3, rank=1, size=4, b2k=17, iters=2)))
 CORPUS.append(("glwe_trace", ALL, 16, dict(krin=1, krout=1, ksize=3, kb2k=17, dnum=2, dsize=1, rank=1, size=2, b2k=17, arank=1, asize=2, ab2k=17, iters=4)))
+CORPUS.append(("cmux", ALL, 8, dict(krin=1, krout=1, ksize=7, kb2k=7, dnum=2, dsize=3, rank=1, size=4, b2k=7)))
 CORPUS.append(("glwe_decrypt", NTT, 8, dict(size=1, b2k=17, rank=1)))
 CORPUS.append(("glwe_encrypt_pk", NTT, 64, dict(size=1, b2k=7, rank=2, pksize=1)))
 CORPUS.append(("lwe_encrypt_sk", ALL, 16, dict(size=4, b2k=17, nlwe=5)))      # the round-0 reproduction: 416-byte window
@@ -287,6 +316,13 @@ def run(ctx):
     if binp is None or drv is None:
         ctx.violation("C12 machinery does not build", {"broken": broken[:10]}, False)
         return ctx.finish(rule="n/a")
+
+    # ---- compiled circuit widths (per-thread size of execute_bdd depends on max_state_size)
+    rc, out, err = common.run([binp, "circuits"])
+    from .c13 import parse_dump
+    for name, tab in parse_dump(out).items():
+        BDD_STATE[name] = max([w for (w, _) in tab["bits"][:tab["out"]]] or [0])
+    ctx.cov["bdd_max_state_size"] = dict(BDD_STATE)
 
     # ---- case generation
     n_shapes = 20 if quick else 150
